@@ -67,7 +67,7 @@ def _harness(res, work, extra, env=None):
 
 def _run(res, work, extra):
     broken = []          # (kind, what) — triggers the failing-input search below
-    ok, tlog = common.regen_tables()
+    ok, tlog = common.regen_tables("C16")
     if not ok:
         broken.append(("translator", "translator: " + "; ".join(l for l in tlog.splitlines() if "FAILED" in l)))
     lean = common.lean_obligations("C16", res.tier)
@@ -159,7 +159,7 @@ def replay(path):
         print("no generated case recorded in this replay file (%s)" % d.get("broken"))
         return 0
     res = common.Result("C16", d.get("tier", "quick"), d.get("seed", 1))
-    common.regen_tables()
+    common.regen_tables("C16")
     common.lean_obligations("C16", "quick")
     _build_harness()
     work = tempfile.mkdtemp(prefix="bgverif_c16_replay_")
